@@ -909,6 +909,11 @@ func genC17(g *Gen) {
 				g.Case("shard", J{"keys": strsJ(keys), "maxSize": ms})
 			}
 		}
+		if c%4 == 0 { // "no limit": sizes at and right below the largest int32 (n + maxSize exceeds it)
+			const maxI32 = 1<<31 - 1
+			ms := []int{maxI32, maxI32 - 1, maxI32 - n, maxI32 - n + 1, maxI32 - n/2, maxI32 - 2*n, 1 << 30, 1<<31 - 64}[r.Intn(8)]
+			g.Case("shard", J{"keys": strsJ(keys), "maxSize": ms})
+		}
 	}
 	// all keys differing in the first byte; single key
 	for c := 0; c < g.N(40, 1000); c++ {
